@@ -397,6 +397,49 @@ fn main() {
                 }
             }
         }
+        Some("c13") => {
+            // C13 under the crate's DEFAULT feature set (this binary is built with snappy only):
+            // opening must accept exactly the trailers with a known magic, a complete record and a
+            // codec id 0..=5, whatever codecs this build can decompress.
+            let mut bad = 0;
+            let mut n = 0;
+            let finished = {
+                let mut w = WriterBuilder::new().memory();
+                w.insert(b"a", b"1").unwrap();
+                w.insert(b"b", b"2").unwrap();
+                w.into_inner().unwrap()
+            };
+            for version in [1u8, 2] {
+                for codec in 0..=255u8 {
+                    // a bare trailer and a finished file with its codec byte replaced
+                    let mut bare = vec![0u8; 8];
+                    bare.push(codec);
+                    bare.extend_from_slice(&3u64.to_le_bytes());
+                    if version == 2 {
+                        bare.push(0);
+                        bare.extend_from_slice(&0x6723D4C4u32.to_le_bytes());
+                    } else {
+                        bare.extend_from_slice(&0x76324D4Cu32.to_le_bytes());
+                    }
+                    let mut file = finished.clone();
+                    let l = file.len();
+                    file[l - 14] = codec; // V2 trailer of the finished file
+                    for (what, bytes) in [("bare trailer", &bare), ("finished file", &file)] {
+                        if what == "finished file" && version == 1 {
+                            continue;
+                        }
+                        n += 1;
+                        let got = Reader::new(Cursor::new(bytes.as_slice())).is_ok();
+                        let want = codec <= 5;
+                        if got != want {
+                            bad += 1;
+                            println!("C13DF-VIOLATION version={version} codec={codec} {what}: accepted={got}, expected {want}; hex={}", bytes.iter().map(|b| format!("{b:02x}")).collect::<String>());
+                        }
+                    }
+                }
+            }
+            println!("C13DF-DONE {n} {bad}");
+        }
         Some("list") => {
             for s in scenario_list(args.get(2).map(|s| s == "thorough").unwrap_or(false)) {
                 println!("{s}");
